@@ -305,5 +305,33 @@ def rule_n7(repo):
                           'a bound variable in the skipped position leaks into the instantiation, which then does not instantiate the pattern to the target')
 
 
+def rule_n8(repo):
+    """A schematic head ?f applied to bound variables and matched variables is instantiated by abstracting
+    the target over those arguments.  That is right only if the target mentions no bound variable of the
+    pattern that is *not* among the arguments; the matcher tests this over the whole target
+    (`any(v in t.get_vars() and v not in pat.args for v in bd_vars)`) and otherwise falls back.  The test must
+    be on every path to the abstraction branch - not behind a shortcut on the number of arguments."""
+    res = RuleResult('C09.N8', 'the instantiation of a schematic head is computed by abstraction only after the target was searched for bound variables that are not arguments', floor=1)
+    f = repo.func(MATCHER, 'first_order_match')
+    g = need(f.nested.get('match'), 'first_order_match: nested match not found')
+    cfg = cfg_of(g.node)
+    # the binding of the head in the non-heuristic branch: inst[pat.head.name] = inst_t  (value a plain local name)
+    binds = [n for n in cfg.stmt_nodes(ast.Assign) if any(isinstance(t, ast.Subscript) and is_name(t.value, 'inst') for t in n.ast.targets) and
+             isinstance(n.ast.value, ast.Name) and n.ast.value.id not in ('t',)]
+    need(binds, 'first_order_match.match: binding of the head by abstraction not found')
+    # the search: an any(...) over bd_vars that looks into the variables of the target
+    searches = [t for t in cfg.test_nodes() if isinstance(t.ast, ast.Call) and call_name(t.ast) == 'any' and t.ast.args and
+                isinstance(t.ast.args[0], (ast.GeneratorExp, ast.ListComp)) and
+                any(is_name(gen.iter, 'bd_vars') for gen in t.ast.args[0].generators) and 'pat.args' in src(t.ast, 300)]
+    need(searches, 'first_order_match.match: search of the target for extra bound variables not found')
+    for b in binds:
+        ok = cfg.path_avoiding(b, skip_nodes=searches) is None
+        res.add('%s :: first_order_match.match :: head-by-abstraction@%s' % (MATCHER, src(b.ast.value, 20)), ok,
+                'every path passes the search for bound variables that are not arguments' if ok else
+                'the abstraction branch is reachable without the search `%s`: %%x. %%y. ?f y ?a against %%x. %%y. g x y c gives ?f := g x, with the '
+                'binder\'s variable free in the instantiation' % src(searches[0].ast, 60), '%s:%d' % (MATCHER, b.lineno))
+    return res
+
+
 def rules(repo):
-    return [rule_n1(repo), rule_n2(repo), rule_n3(repo), rule_n4(repo), rule_n5(repo), rule_n6(repo), rule_n7(repo)]
+    return [rule_n1(repo), rule_n2(repo), rule_n3(repo), rule_n4(repo), rule_n5(repo), rule_n6(repo), rule_n7(repo), rule_n8(repo)]
